@@ -10,7 +10,7 @@ import numpy as np
 from harness.framework import cZ, cZlist, clist, pmap
 
 LEVEL = "proof"
-TRANSLATED_KERNELS = ["_fix_copy_chunks", "_calculate_shared_chunks", "_count_intermediate_chunks"]   # harness/translate.py: re-translated from /repo on every run and proved equal to the model
+TRANSLATED_KERNELS = ["_fix_copy_chunks", "_calculate_shared_chunks", "_count_intermediate_chunks", "calculate_single_stage_io_ops"]   # harness/translate.py: re-translated from /repo on every run and proved equal to the model
 RULE = ("geometries (shape 1-3 dims, source chunks, target chunks, itemsize, min_mem, max_mem, allow_irregular) drawn from "
         "ranges that force 1..5 stages; the real planner functions are run with recording wrappers around the float-based "
         "stage-value functions (np.geomspace+floor / _multspace) and Model.Rechunk is evaluated with those recorded values; "
